@@ -21,4 +21,4 @@ def register(m):
     m("C14", "c14-dot-derivative-one-sided", V, "        derived_rhs = VectorDot(lhs, rhs.diff(symbol))\n\n        return derived_lhs + derived_rhs", "        derived_rhs = VectorDot(lhs, rhs.diff(symbol))\n\n        return derived_lhs", "R3")
     m("C14", "c14-cross-derivative-minus", V, "        derived_rhs = VectorCross(lhs, rhs.diff(symbol))\n\n        return derived_lhs + derived_rhs", "        derived_rhs = VectorCross(lhs, rhs.diff(symbol))\n\n        return derived_lhs - derived_rhs", "R3")
     m("C14", "c14-norm-derivative", V, "        return VectorDot(vector, vector.diff(symbol)) / done", "        return VectorDot(vector, vector.diff(symbol)) / (2 * done)", "R3")
-    m("C14", "c14-mixed-derivative", V, "        return VectorDot(a, VectorCross(b, c)).diff(symbol)", "        return VectorDot(a, VectorCross(c, b)).diff(symbol)", "R3")
+    m("C14", "c14-mixed-derivative", V, "        derived_b = VectorMixedProduct(a, b.diff(symbol), c)", "        derived_b = VectorMixedProduct(b.diff(symbol), a, c)", "R3")
